@@ -10,6 +10,7 @@
 set -u
 VERIF="$(cd "$(dirname "$0")/.." && pwd)"
 PAT="${1:-S}"
+[ "$PAT" = S ] || export MATRIX_MERGE=1   # a restricted run is merged into seeded/matrix.json
 PROPS="C03 C05 C07 C10 C11 C12 C17 C18 C19"
 [ -z "$(git -C /repo status --porcelain)" ] || { echo "matrix error: /repo has uncommitted changes"; exit 2; }
 trap 'git -C /repo checkout -- . >/dev/null 2>&1; git -C /repo clean -fdq -- src >/dev/null 2>&1' EXIT
@@ -36,7 +37,7 @@ for d in "$VERIF"/seeded/S* "$VERIF"/tools/premise_audit/selftest; do
   elif [ -d "$d" ] && [ "$(basename "$d")" = selftest ]; then
     for p in "$d"/*.diff; do
       n="own-$(basename "$p" .diff)"
-      echo "$n" | grep -q "$PAT" || [ "$PAT" = S ] || continue
+      [ "$PAT" = S ] || continue
       git -C /repo apply "$p" || { echo "matrix error: $p does not apply"; exit 2; }
       run_all "$n"
       git -C /repo checkout -- . >/dev/null 2>&1; git -C /repo clean -fdq -- src
@@ -53,6 +54,12 @@ rows = [l.rstrip("\n").split("\t") for l in open(sys.argv[1])]
 m = collections.OrderedDict()
 for label, prop, rc, v, what in rows:
     m.setdefault(label, {})[prop] = {"exit": int(rc), "violation": int(v) > 0, "summary": what}
+# a run restricted by a pattern adds its rows to the existing file instead of replacing it
+import os
+if os.environ.get("MATRIX_MERGE") == "1" and os.path.exists(sys.argv[2]):
+    old = json.load(open(sys.argv[2]))["checks_quick_tier"]
+    old.update(m)
+    m = old
 summary = {k: sorted(p for p, r in v.items() if r["violation"]) for k, v in m.items()}
 json.dump({"checks_quick_tier": m, "violations_by_change": summary}, open(sys.argv[2], "w"), indent=1)
 for k, v in summary.items():
